@@ -41,7 +41,7 @@ const (
 
 func (t *WorkerToken) doRetry(req *http.Request) (rresp *workerrpc.Response, err error) {
 	retries := t.tconf.Retries
-	if retries == 0 {
+	if retries <= 0 {
 		retries = defaultRetries
 	}
 	timeout := time.Duration(t.tconf.Timeout) * time.Second
